@@ -1860,16 +1860,16 @@ def bipartite_random_regular(l, r, d, seed=None):
                 break
         else:
             # Sampling takes too long, maybe no good edge exists
-            failure = True
-            for ea in range(i, l * d):
-                for eb in range(i, l * d):
-                    if not G.has_edge(A[ea], B[eb]):
-                        failure = False
-                        break
-                if not failure:
-                    break
-            if failure:
+            good = [(ea, eb)
+                    for ea in range(i, l * d)
+                    for eb in range(i, l * d)
+                    if not G.has_edge(A[ea], B[eb])]
+            if len(good) == 0:
                 return bipartite_random_regular(l, r, d)
+            ea, eb = random.choice(good)
+            G.add_edge(A[ea], B[eb])
+            A[i], A[ea] = A[ea], A[i]
+            B[i], B[eb] = B[eb], B[i]
 
     return G
 
